@@ -213,6 +213,100 @@ def run(ctx):
     used_reviews = set()
     counts = {"auto": 0, "contract": 0, "counter": 0, "A1": 0, "reviewed": 0, "violation": 0}
     fns = {p: Fn(cg.nodes[p]) for p in R}
+    # return-value summaries of parser functions, proved on the callee and used as facts at its call sites:
+    #   ge_param k            every value returned is >= the (never reassigned) usize parameter k
+    #   some_plus_le_len k,c  every Some(x) returned has x + c <= len(parameter k)
+    summ_cache = {}
+
+    def summaries(path):
+        if path in summ_cache:
+            return summ_cache[path]
+        summ_cache[path] = None          # recursion guard
+        f = fns.get(path)
+        if f is None or f.b.kind == "Closure":
+            return None
+        b_, bnd_ = f.b, f.bnd
+        n = b_.mir["arg_count"]
+        defs0 = [d for d in bnd_.defs.get(0, [])]
+        out = {"ge_param": [], "some_plus_le_len": []}
+        if not defs0:
+            return None
+        unmod = [k for k in range(1, n + 1) if not bnd_.defs.get(k) and k not in bnd_.mut_borrowed]
+
+        def after(bb, k):
+            """site just after the definition at (bb, k)"""
+            if k == "term":
+                tg = b_.blocks[bb]["term"].get("target")
+                return (tg, 0) if tg is not None else None
+            return (bb, k + 1) if k + 1 < len(b_.blocks[bb]["stmts"]) else (bb, "term")
+        if b_.ret_ty in ("usize", "u64"):
+            for k in unmod:
+                if b_.locals[k]["s"] not in ("usize", "u64"):
+                    continue
+                good = True
+                for bb, kk, rv in defs0:
+                    if rv["k"] == "use":
+                        ln = bnd_.lin_op(rv["op"])
+                    elif rv["k"] == "binop" and rv["op"] in ("Add", "Sub"):
+                        ln = bnd_.lin_op(rv["l"]).add(bnd_.lin_op(rv["r"]), 1 if rv["op"] == "Add" else -1)
+                    else:
+                        good = False
+                        break
+                    if not bnd_.prove(Lin({("L", k): 1}).add(ln, -1), bb, kk):
+                        good = False
+                        break
+                if good:
+                    out["ge_param"].append(k)
+        if b_.ret_ty.replace(" ", "") == "std::option::Option<usize>":
+            for k in unmod:
+                ty = b_.locals[k]["s"]
+                if not (ty.startswith("&") and ("[" in ty or "Vec<" in ty)):
+                    continue
+                key, _ = bnd_.root_key({"l": k, "p": ["deref"]})
+                ln = Lin({("len", key): 1})
+                for c in (2, 1, 0):
+                    good = True
+                    for bb, kk, rv in defs0:
+                        if rv["k"] == "aggregate" and rv.get("variant") == "None":
+                            continue
+                        if rv["k"] == "aggregate" and rv.get("variant") == "Some" and len(rv["ops"]) == 1:
+                            x = bnd_.lin_op(rv["ops"][0])
+                            if not bnd_.prove(x.add(ln, -1).add(Lin({}, c)), bb, kk):
+                                good = False
+                            continue
+                        if rv["k"] == "call":
+                            site = after(bb, kk)
+                            item = Lin({("pl", bnd_.root_key({"l": 0, "p": [{"downcast": "Some"}, {"field": "0"}]})[0]): 1})
+                            if site is None or not bnd_.prove(item.add(ln, -1).add(Lin({}, c)), site[0], site[1]):
+                                good = False
+                            continue
+                        good = False
+                    if good:
+                        out["some_plus_le_len"].append((k, c))
+                        break
+        summ_cache[path] = out if (out["ge_param"] or out["some_plus_le_len"]) else None
+        return summ_cache[path]
+    for f in fns.values():
+        f.bnd.summary_of = summaries
+        f.summaries = summaries
+    # contracts std gives to closure parameters: the closure handed to an adaptor of `s.windows(n)` / `chunks_exact(n)`
+    # (position, any, all, map, for_each, find, filter) receives slices of exactly n elements
+    for p in R:
+        pb = cg.nodes[p]
+        for bi, t in pb.calls():
+            for ca in t["callee"].get("closure_args", []):
+                cf = fns.get(ca["closure"])
+                if cf is None or ca.get("fn_item") or not t["args"] or t["args"][0]["k"] not in ("copy", "move") or t["args"][0]["place"]["p"]:
+                    continue
+                cre = fns[p].bnd._unwrap_def(t["args"][0]["place"]["l"])
+                if cre is None or cre[2]["k"] != "call":
+                    continue
+                ct = cre[2]["t"]
+                cn = (ct["callee"].get("resolved") or ct["callee"].get("path", "")).split("::")[-1]
+                if cn in ("windows", "chunks_exact") and len(ct["args"]) == 2 and ct["args"][1]["k"] == "const" and \
+                        (ct["args"][1].get("int") or 0) >= 1 and cf.b.mir["arg_count"] >= 2:
+                    nm_ = cf.b.local_name(2)
+                    cf.bnd.global_facts.append((Lin({("len", nm_): 1}, -ct["args"][1]["int"]), "eq"))
     seen_keys = {}
     rev_seen = {}
     dump = []
@@ -369,6 +463,10 @@ def run(ctx):
                         settle(fn, "P4", what, t["line"], i, cls="A1", detail="position/length plus a small constant (A1)")
                     elif op in ("Add", "Sub") and small and lty in ("i32", "i64", "isize"):
                         settle(fn, "P4", what, t["line"], i, cls="A1", detail="signed counter plus/minus a small constant (A1)")
+                    elif op == "Add" and lty in ("usize", "u64") and len_bounded(fn, ll.add(rl), i):
+                        settle(fn, "P4", what, t["line"], i, cls="auto",
+                               detail="the sum is bounded by a collection length plus a constant at this point (%s); lengths never "
+                                      "exceed isize::MAX, so it cannot wrap" % len_bounded(fn, ll.add(rl), i))
                     else:
                         settle(fn, "P4", what, t["line"], i, None, why_fail="`%s` at line %d can overflow" % (what, t["line"]),
                                alpha_terms=[ll, rl], alpha_tag=op.lower())
@@ -447,6 +545,10 @@ def run(ctx):
                     idx = bnd.lin_op(t["args"][1])
                     goals = [idx.add(ln, -1).add(Lin({}, 1 if last == "remove" else 0))]
                     what = "%s.%s(%s)" % (fn._key(key), last, fn.show(idx))
+                if last in ("windows", "chunks", "chunks_exact", "rchunks") and len(t["args"]) == 2 and t["args"][1]["k"] == "const" \
+                        and (t["args"][1].get("int") or 0) >= 1:
+                    goals = []          # panics only for a size of 0; the size is the literal %d here
+                    what = "%s(%d)" % (last, t["args"][1]["int"])
                 settle(fn, "P5", what, t["line"], i, goals,
                        why_fail="%s at line %d can panic: argument not proved valid" % (what, t["line"]))
         # ---- loops ---------------------------------------------------------
@@ -657,6 +759,14 @@ def loop_terminates(fn, head, blocks):
                         if bnd.prove(goal, bb, k if isinstance(k, int) else "term"):
                             step = 0
                         elif up and skip_ahead(fn, c, pl["l"], bb, blocks):
+                            step = 0
+                elif r["k"] == "call" and up and getattr(fn, "summaries", None) is not None:
+                    # c = f(.., c, ..) where f is proved to return at least that argument: the counter never moves back
+                    tcall = r["t"]
+                    sm = fn.summaries(tcall["callee"].get("resolved") or tcall["callee"].get("path") or "")
+                    for kpar in (sm or {}).get("ge_param", []):
+                        a = tcall["args"][kpar - 1] if kpar - 1 < len(tcall["args"]) else None
+                        if a and a["k"] in ("copy", "move") and not a["place"]["p"] and root_local(bnd, a["place"]["l"]) == c:
                             step = 0
                 if step is None or (up and step < 0) or ((not up) and step > 0):
                     good = False
